@@ -25,6 +25,12 @@ step.  That is faithful only while, in the source,
     (buffer order = offset order), and the commit of a flushed segment (segment list, `flushing`, `flushingBatches`,
     Broadcast) is ONE critical section                                  (`appendIsOneRegion`, `commitIsOneRegion`);
   * no return leaves with the mutex held                                                          (`lockBalanced`);
+  * `prepareFlush` calls `BuildSegment` AFTER `Drain`: every exit of `prepareFlush` behind the `Drain` call either
+    drained nothing, or installed the drained batches as `flushingBatches`, or re-queued them — or is the exit taken
+    on `BuildSegment`'s own error, which is harmless only while `BuildSegment` cannot fail on batches `AppendBatch`
+    accepted: its error returns are exactly "no batches", "empty payload" and the errors of its two writes into a
+    `bytes.Buffer`, and `IndexBuilder.BuildBytes` fails only when a write into its `bytes.Buffer` does
+    (`C01.build_total_on_accepted`)                          (`buildErrorsKnown`, `prepareExitsInstallOrRequeue`);
   * `getPartitionLog` re-checks the registry INSIDE the singleflight callback before it opens a log, and registers
     (under the write lock) only a log that went through `RestoreFromS3`, unconditionally, with its error returned
     — the ONE volatile `Mem` per incarnation of the model, built by `scan`   (`registryRecheckInFlight`, `restoreBeforeRegister`).
@@ -424,6 +430,60 @@ def sec_getPartitionLog : List Row := [
   ⟨"getPartitionLog", 11, 0, true, .free, 1, ["for", "!(err != nil)"],
      .ret ["result.(*storage.PartitionLog)", "nil"] ["other", "const"] false⟩]
 
+/-- `BuildSegment` ↦ model `buildOk false` (the `BuildSegment` call of `prepareFlush`, AFTER `Drain`): its error returns are `len(batches) == 0`, `len(batch.Bytes) == 0` and the errors of two writes into a bytes.Buffer — `buildErrorsKnown`; a new error return (e.g. a validation of `batch.MessageCount`) is `strictBuild` -/
+def sec_BuildSegment : List Row := [
+  ⟨"BuildSegment", 12, 0, false, .inherit, 0, ["len(batches) == 0"],
+     .ret ["nil", "fmt.Errorf(\"no batches to serialize\")"] ["const", "call"] false⟩,
+  ⟨"BuildSegment", 12, 0, false, .inherit, 0, ["!(len(batches) == 0)", "range batches", "len(batch.Bytes) == 0"],
+     .ret ["nil", "fmt.Errorf(\"batch payload empty\")"] ["const", "call"] false⟩,
+  ⟨"BuildSegment", 12, 0, false, .inherit, 0, ["!(len(batches) == 0)", "range batches", "!(len(batch.Bytes) == 0)"],
+     .call "index" "MaybeAdd" ["batch.BaseOffset", "int32(position)", "batch.MessageCount"] [] false⟩,
+  ⟨"BuildSegment", 12, 0, false, .inherit, 0, ["!(len(batches) == 0)", "range batches", "!(len(batch.Bytes) == 0)"],
+     .call "body" "Write" ["batch.Bytes"] ["_", "err"] false⟩,
+  ⟨"BuildSegment", 12, 0, false, .inherit, 0, ["!(len(batches) == 0)", "range batches", "!(len(batch.Bytes) == 0)", "err != nil"],
+     .ret ["nil", "err"] ["const", "call"] false⟩,
+  ⟨"BuildSegment", 12, 0, false, .inherit, 0, ["!(len(batches) == 0)"],
+     .call "index" "BuildBytes" [] ["indexBytes", "err"] false⟩,
+  ⟨"BuildSegment", 12, 0, false, .inherit, 0, ["!(len(batches) == 0)", "err != nil"],
+     .ret ["nil", "err"] ["const", "call"] false⟩,
+  ⟨"BuildSegment", 12, 0, false, .inherit, 0, ["!(len(batches) == 0)", "!(err != nil)"],
+     .ret ["&SegmentArtifact{ BaseOffset: batches[0].BaseOffset, LastOffset: lastOffset, MessageCount: totalMessages, CreatedAt: created, SegmentBytes: segment.Bytes(), IndexBytes: indexBytes, RelativeIndex: index.Entries(), }", "nil"] ["fresh", "const"] false⟩]
+
+/-- `BuildBytes` ↦ model no error (`buildOk`): every error return of `IndexBuilder.BuildBytes` follows a write into its bytes.Buffer -/
+def sec_BuildBytes : List Row := [
+  ⟨"BuildBytes", 13, 0, false, .inherit, 0, [],
+     .call "buf" "WriteString" ["indexMagic"] ["_", "err"] false⟩,
+  ⟨"BuildBytes", 13, 0, false, .inherit, 0, ["err != nil"],
+     .ret ["nil", "err"] ["const", "call"] false⟩,
+  ⟨"BuildBytes", 13, 0, false, .inherit, 0, ["!(err != nil)"],
+     .call "binary" "Write" ["buf", "binary.BigEndian", "uint16(1)"] ["err"] false⟩,
+  ⟨"BuildBytes", 13, 0, false, .inherit, 0, ["!(err != nil)", "err != nil"],
+     .ret ["nil", "err"] ["const", "call"] false⟩,
+  ⟨"BuildBytes", 13, 0, false, .inherit, 0, ["!(err != nil)", "!(err != nil)"],
+     .call "binary" "Write" ["buf", "binary.BigEndian", "int32(len(b.entries))"] ["err"] false⟩,
+  ⟨"BuildBytes", 13, 0, false, .inherit, 0, ["!(err != nil)", "!(err != nil)", "err != nil"],
+     .ret ["nil", "err"] ["const", "call"] false⟩,
+  ⟨"BuildBytes", 13, 0, false, .inherit, 0, ["!(err != nil)", "!(err != nil)", "!(err != nil)"],
+     .call "binary" "Write" ["buf", "binary.BigEndian", "b.interval"] ["err"] false⟩,
+  ⟨"BuildBytes", 13, 0, false, .inherit, 0, ["!(err != nil)", "!(err != nil)", "!(err != nil)", "err != nil"],
+     .ret ["nil", "err"] ["const", "call"] false⟩,
+  ⟨"BuildBytes", 13, 0, false, .inherit, 0, ["!(err != nil)", "!(err != nil)", "!(err != nil)", "!(err != nil)"],
+     .call "binary" "Write" ["buf", "binary.BigEndian", "uint16(0)"] ["err"] false⟩,
+  ⟨"BuildBytes", 13, 0, false, .inherit, 0, ["!(err != nil)", "!(err != nil)", "!(err != nil)", "!(err != nil)", "err != nil"],
+     .ret ["nil", "err"] ["const", "call"] false⟩,
+  ⟨"BuildBytes", 13, 0, false, .inherit, 0, ["!(err != nil)", "!(err != nil)", "!(err != nil)", "!(err != nil)", "!(err != nil)"],
+     .check "range" "b.entries"⟩,
+  ⟨"BuildBytes", 13, 0, false, .inherit, 0, ["!(err != nil)", "!(err != nil)", "!(err != nil)", "!(err != nil)", "!(err != nil)", "range b.entries"],
+     .call "binary" "Write" ["buf", "binary.BigEndian", "entry.Offset"] ["err"] false⟩,
+  ⟨"BuildBytes", 13, 0, false, .inherit, 0, ["!(err != nil)", "!(err != nil)", "!(err != nil)", "!(err != nil)", "!(err != nil)", "range b.entries", "err != nil"],
+     .ret ["nil", "err"] ["const", "call"] false⟩,
+  ⟨"BuildBytes", 13, 0, false, .inherit, 0, ["!(err != nil)", "!(err != nil)", "!(err != nil)", "!(err != nil)", "!(err != nil)", "range b.entries", "!(err != nil)"],
+     .call "binary" "Write" ["buf", "binary.BigEndian", "entry.Position"] ["err"] false⟩,
+  ⟨"BuildBytes", 13, 0, false, .inherit, 0, ["!(err != nil)", "!(err != nil)", "!(err != nil)", "!(err != nil)", "!(err != nil)", "range b.entries", "!(err != nil)", "err != nil"],
+     .ret ["nil", "err"] ["const", "call"] false⟩,
+  ⟨"BuildBytes", 13, 0, false, .inherit, 0, ["!(err != nil)", "!(err != nil)", "!(err != nil)", "!(err != nil)", "!(err != nil)"],
+     .ret ["buf.Bytes()", "nil"] ["call", "const"] false⟩]
+
 /-- function ↦ its rows, in the order of the extractor's function list -/
 def sections : List (String × List Row) := [
   ("RestoreFromS3", sec_RestoreFromS3),
@@ -436,7 +496,9 @@ def sections : List (String × List Row) := [
   ("Drain", sec_Drain),
   ("Requeue", sec_Requeue),
   ("handleProduce", sec_handleProduce),
-  ("getPartitionLog", sec_getPartitionLog)]
+  ("getPartitionLog", sec_getPartitionLog),
+  ("BuildSegment", sec_BuildSegment),
+  ("BuildBytes", sec_BuildBytes)]
 
 /-- the table the model was written against -/
 def expected : List Row := sections.flatMap (·.2)
@@ -745,10 +807,94 @@ def restoreBeforeRegister (rows : List Row) : Bool :=
     | _, _, _ => false
   | _, _ => false
 
+/-- a return whose last value is not the constant `nil`: an error return of a `(.., error)` function -/
+def Ev.isErrRet : Ev → Bool
+  | .ret vals _ _ => vals.getLast? != some "nil"
+  | _ => false
+
+/-- in `rs`: EVERY error return follows, as the very next row, a call of one of `calls` (receiver, function) that binds `err`
+as its last result, under exactly that call's guard + `err != nil` — or its innermost condition is one of `conds` -/
+def errRetsFrom (rs : List Row) (conds : List String) (calls : List (String × String)) : Bool :=
+  let rec go (prev : Option Row) : List Row → Bool
+    | [] => true
+    | r :: rest =>
+      (!r.ev.isErrRet ||
+        (match r.guard.getLast? with
+          | some g => conds.contains g
+          | none => false) ||
+        (match prev with
+          | some c =>
+            (match c.ev with
+              | .call rc f _ b _ => calls.contains (rc, f) && b.getLast? == some "err"
+              | _ => false) &&
+            r.guard == c.guard ++ ["err != nil"] && r.ev.retVals ["nil", "err"]
+          | none => false)) &&
+      go (some r) rest
+  go none rs
+
+/-- `BuildSegment` returns an error only for an empty batch list, for a batch with an empty payload, and when one of its two
+writes into a `bytes.Buffer` (`body.Write`, `index.BuildBytes`) does; `IndexBuilder.BuildBytes` only when a write into its
+`bytes.Buffer` does.  This is the model's `buildOk false` (`strictBuild = false`): a batch `AppendBatch` accepted (≥ 8 payload
+bytes) is never rejected, whatever record count its header declares. -/
+def buildErrorsKnown (rows : List Row) : Bool :=
+  let bs := body rows Fn.buildSegment
+  let ib := body rows Fn.indexBuildBytes
+  ((bs.filter (·.ev.isErrRet)).map (·.guard.getLast?)) ==
+    [some "len(batches) == 0", some "len(batch.Bytes) == 0", some "err != nil", some "err != nil"] &&
+  errRetsFrom bs ["len(batches) == 0", "len(batch.Bytes) == 0"] [("body", "Write"), ("index", "BuildBytes")] &&
+  !(ib.filter (·.ev.isErrRet)).isEmpty &&
+  errRetsFrom ib [] [("buf", "WriteString"), ("binary", "Write")] &&
+  (ib.all fun r => match r.ev with
+    | .call "binary" "Write" args _ _ => args.head? == some "buf"
+    | _ => true)
+
+def buildCallEv : Ev := .call "" "BuildSegment" ["l.cfg.Segment", "batches", "time.Now()"] ["artifact", "err"] false
+def requeueDrainedEv : Ev := .call "l.buffer" "Requeue" ["batches"] [] false
+
+/-- one `ret` row of `prepareFlush` behind the `Drain` call, given the rows between the two (`seen`, in order) -/
+def prepareExitOk (rows : List Row) (seen : List Row) (r : Row) : Bool :=
+  r.guard.contains "len(batches) == 0" ||
+  seen.any (fun w => w.ev == .write "l.flushingBatches" "batches" && w.guard.isPrefixOf r.guard) ||
+  seen.any (fun w => w.ev == requeueDrainedEv && w.guard.isPrefixOf r.guard) ||
+  ((match seen.getLast? with
+      | some c => c.ev == buildCallEv && r.guard == c.guard ++ ["err != nil"]
+      | none => false) &&
+    buildErrorsKnown rows)
+
+def prepareExitsFrom (rows : List Row) : List Row → List Row → Bool
+  | _, [] => true
+  | seen, r :: rest => (!r.ev.isRet || prepareExitOk rows seen r) && prepareExitsFrom rows (seen ++ [r]) rest
+
+/-- every exit of `prepareFlush` after `Drain` drained nothing, installed `flushingBatches`, re-queued — or is the
+`BuildSegment`-error exit while `BuildSegment`'s error returns are the known ones (unreachable for accepted batches) -/
+def prepareExitsInstallOrRequeue (rows : List Row) : Bool :=
+  let pf := body rows Fn.prepareFlush
+  match idxOf (·.ev == .call "l.buffer" "Drain" [] ["batches"] false) pf with
+  | none => false
+  | some i =>
+    let after := pf.drop (i + 1)
+    after.any (·.ev == buildCallEv) &&
+    precedes pf (·.ev.isCallOf "l.buffer" "Drain") (·.ev == buildCallEv) &&
+    prepareExitsFrom rows [] after
+
+/-- the `BuildSegment`-error exit of `prepareFlush` re-queues the drained batches (before it returns the error) -/
+def buildErrorExitRequeues (rows : List Row) : Bool :=
+  let pf := body rows Fn.prepareFlush
+  match idxOf (·.ev == buildCallEv) pf with
+  | none => false
+  | some i =>
+    match pf[i]? with
+    | none => false
+    | some c =>
+      let g := c.guard ++ ["err != nil"]
+      let ex := (pf.drop (i + 1)).filter fun r => g.isPrefixOf r.guard
+      ex.any (·.ev.isRet) && precedes ex (·.ev == requeueDrainedEv) (·.ev.isRet)
+
 /-- which variant of `StorageLog` the source is (`monotone` is a fact about `metadata.Store.UpdateOffsets`, tied by C05's own
-harnesses; the other two are read off the skeleton) -/
+harnesses; the others are read off the skeleton: `strictBuild = false` iff `BuildSegment`'s error returns are the known ones) -/
 def variantOf (rows : List Row) : Variant :=
-  { requeue := failureRequeuesUnderLock rows, atomicTarget := emptyFlushTargetInPrepareRegion rows, monotone := true }
+  { requeue := failureRequeuesUnderLock rows, atomicTarget := emptyFlushTargetInPrepareRegion rows, monotone := true,
+    strictBuild := !buildErrorsKnown rows, requeueBuild := buildErrorExitRequeues rows }
 
 /-! ### Which model step a row stands for -/
 
@@ -770,7 +916,7 @@ def Step.all : List Step := [.append, .flushEnter, .prepare, .seg, .idx, .finish
 def stepOf (r : Row) : Option Step :=
   if r.fid == Fn.appendBatch then some (if r.lk == .held || r.region == 0 then .append else .pub)
   else if r.fid == Fn.flush then some (if r.lk == .held then .flushEnter else .pub)
-  else if r.fid == Fn.prepareFlush || r.fid == Fn.bufDrain then some .prepare
+  else if r.fid == Fn.prepareFlush || r.fid == Fn.bufDrain || r.fid == Fn.buildSegment || r.fid == Fn.indexBuildBytes then some .prepare
   else if r.fid == Fn.uploadFlush then some (if r.lit == 1 then .seg else if r.lit == 2 then .idx else .finish)
   else if r.fid == Fn.bufAppend then some .append
   else if r.fid == Fn.bufRequeue then some .finish
@@ -783,7 +929,7 @@ def stepOf (r : Row) : Option Step :=
 /-- the rows a step of the model stands for -/
 def stepRows (rows : List Row) (st : Step) : List Row := rows.filter fun r => stepOf r == some st
 
-/-- the step an event of the transition system executes (`crash` is the environment; `readNext` exists only in the
+/-- the step an event of the transition system executes (`crash` and the fault oracle `buildFault` are the environment; `readNext` exists only in the
 pre-fix variant, whose second critical section the source no longer has: `emptyFlushTargetInPrepareRegion`) -/
 def evStep : StorageLog.Ev → Option Step
   | .append .. => some .append
@@ -793,7 +939,7 @@ def evStep : StorageLog.Ev → Option Step
   | .finish _ => some .finish
   | .pub .. => some .pub
   | .restore => some .restore
-  | .readNext _ | .crash => none
+  | .readNext _ | .crash | .buildFault _ => none
 
 /-! ### What the rows of a critical section DO: compilation to commands over `StorageLog.Mem` -/
 
@@ -811,6 +957,7 @@ inductive Act where
   | bufAppend          -- l.buffer.Append(batch)
   | prepare            -- artifact, err := l.prepareFlush()
   | drain              -- batches := l.buffer.Drain()
+  | build              -- artifact, err := BuildSegment(l.cfg.Segment, batches, time.Now())
   | setFlushing (b : Bool)
   | keepInflight       -- l.flushingBatches = batches
   | clearInflight      -- l.flushingBatches = nil
@@ -876,7 +1023,7 @@ def compileEv : Ev → Option (Option Act)
     else if rc == "l" && f == "prepareFlush" && binds == ["artifact", "err"] then some (some .prepare)
     else if rc == "l.buffer" && f == "Drain" && binds == ["batches"] then some (some .drain)
     else if rc == "l.buffer" && f == "Requeue" && args == ["l.flushingBatches"] then some (some .requeue)
-    else if rc == "" && f == "BuildSegment" && binds == ["artifact", "err"] then some none
+    else if rc == "" && f == "BuildSegment" && args == ["l.cfg.Segment", "batches", "time.Now()"] && binds == ["artifact", "err"] then some (some .build)
     else if rc == "" && f == "PatchRecordBatchBaseOffset" && args == ["&batch", "baseOffset"] then some none
     else none
   | .wait c l lc => if c == "l.flushCond" && l == "for" && lc == "l.flushing" then some (some .waitCond) else none
@@ -898,8 +1045,12 @@ def compile : List Row → Option (List Cmd)
 structure Mach where
   cfg : Cfg
   m : Mem
+  v : Variant := fixed                   -- which `BuildSegment` rule / error exit (`strictBuild`, `requeueBuild`)
+  fault : Bool := false                  -- the fault oracle of `BuildSegment` (bites in `requeueBuild` shapes only)
   id : Nat := 0                          -- ghost id of the batch being appended
   n : Nat := 0                           -- lastOffsetDelta + 1 of the batch being appended
+  mc : Int := 0                          -- record count its header declares
+  len : Nat := 0                         -- len(batch.Bytes)
   base : Nat := 0                        -- local baseOffset
   drained : List Batch := []             -- local batches
   art : Option (List Batch) := none      -- local artifact (the batch list it was built from)
@@ -923,9 +1074,12 @@ def touch (k : Mach) : Cond → Mach
 def doAct (k : Mach) : Act → Mach
   | .snapNext => { k with base := k.m.next }
   | .bumpNext => { k with m := { k.m with next := k.base + k.n } }
-  | .bufAppend => { k with m := { k.m with buffer := k.m.buffer ++ [⟨k.id, k.base, k.n⟩] } }
-  | .prepare => { k with m := (prepareFlush k.m).1, art := (prepareFlush k.m).2 }
+  | .bufAppend => { k with m := { k.m with buffer := k.m.buffer ++ [⟨k.id, k.base, k.n, k.mc, k.len⟩] } }
+  | .prepare =>
+    let r := prepareFlush k.v k.fault k.m
+    { k with m := r.1, art := (match r.2 with | .art a => some a | _ => none), err := r.2 == .err }
   | .drain => { k with drained := k.m.buffer, m := { k.m with buffer := [] } }
+  | .build => { k with err := buildFails k.v k.fault k.drained }
   | .setFlushing b => { k with m := { k.m with flushing := b } }
   | .keepInflight => { k with m := { k.m with inflight := k.drained } }
   | .clearInflight => { k with m := { k.m with inflight := [] } }
@@ -959,6 +1113,7 @@ def prepareCmds : List Cmd := [
   ⟨[.flushing true], .retNone⟩,
   ⟨[.flushing false], .drain⟩,
   ⟨[.flushing false, .drainedEmpty true], .retNone⟩,
+  ⟨[.flushing false, .drainedEmpty false], .build⟩,
   ⟨[.flushing false, .drainedEmpty false, .err true], .retErr⟩,
   ⟨[.flushing false, .drainedEmpty false, .err false], .setFlushing true⟩,
   ⟨[.flushing false, .drainedEmpty false, .err false], .keepInflight⟩,
@@ -1029,6 +1184,12 @@ def diagnose (rows : List Row) : List String :=
   (if restoreBeforeRegister rows then [] else
     ["KafVerif.C01.restore_before_register: getPartitionLog no longer registers exactly the log that was opened at store.NextOffset and restored by RestoreFromS3 (unconditionally, error returned) under the write lock: " ++
       showRows ((initCallback rows).filter fun r => r.ev.isExt "store" "NextOffset" || r.ev.isCallOf "plog" "RestoreFromS3" || r.ev.isCallOf "storage" "NewPartitionLog" || r.ev.isWrite || r.ev.isExt "store" "UpdateOffsets")]) ++
+  (if buildErrorsKnown rows then [] else
+    ["KafVerif.C01.build_errors_known: BuildSegment (called by prepareFlush AFTER Drain) / IndexBuilder.BuildBytes has an error return other than `no batches`, `empty payload` and the errors of its writes into a bytes.Buffer: it can now fail on batches AppendBatch accepted; error returns now: " ++
+      showRows (((body rows Fn.buildSegment) ++ (body rows Fn.indexBuildBytes)).filter (·.ev.isErrRet))]) ++
+  (if prepareExitsInstallOrRequeue rows then [] else
+    ["KafVerif.C01.prepare_exits_install_or_requeue: an exit of prepareFlush behind the Drain call neither installs the drained batches as l.flushingBatches nor re-queues them (and is not the error exit of a BuildSegment that cannot fail on accepted batches): the batches of OTHER producers drained with it are dropped, their Flush finds an empty buffer and acknowledges; prepareFlush now: " ++
+      showRows (body rows Fn.prepareFlush)]) ++
   (if lockBalanced rows then [] else
     ["KafVerif.C01.lock_balanced: a return leaves with the mutex held, or an Unlock does not match what is held: " ++
       showRows (rows.filter fun r => match r.ev with
